@@ -307,7 +307,7 @@ def run_batch(case, ctx):
             else:
                 calls.append(("update", X))
     idt = locals().get("idt") or case.get("literal", {}).get("dtype")
-    det = KdqTreeBatch(**gen.maybe_numpy(kw, case, ctx))
+    det = gen.construct(KdqTreeBatch, kw, case, ctx)
     cmp_ = Cmp()
     model = None
     pending_ref = None  # batch that must become the reference at the next update (after a drift)
@@ -467,7 +467,7 @@ def run_stream(case, ctx):
         d = int(rng.integers(1, 4))
         data = AdaptiveStream(rng, d, int(rng.integers(6, 14)) * kw["window_size"] + int(rng.integers(0, 30)))
     w, pers = kw["window_size"], kw["persistence"]
-    det = KdqTreeStreaming(**gen.maybe_numpy(kw, case, ctx, keep=("window_size",)))  # window_size is validated as a Python int
+    det = gen.construct(KdqTreeStreaming, kw, case, ctx, keep=("window_size",))  # window_size is validated as a Python int
     cmp_ = Cmp()
     epoch = []
     model = None
